@@ -6,6 +6,8 @@ HIST_RULE = ("seeded operation histories (case idx -> PRNG seed) over engineered
              "operations and crossed at least one growth step (maps) / has >= 10 operations (stacks)")
 
 ENGINE_KINDS = {
+    "budget": "dispatch-counter monitor at the per-instruction hook (counts every dispatch at every nesting level, stops the run and leaves logical evidence when it passes the budget) + self-differential across budgets around the measured instruction need",
+    "lifecycle": "histories of (program, run, clear) on one VM against a fresh-VM twin in lock-step (C17); offline ledger checker over the allocator's alloc/dealloc event log, forced full collection after OutOfMemory (C05)",
     "bytecode": "every compiler output of the run decoded front to back and validated in full (opcodes, operand widths, final Exit, jump targets, labels, function handles, string operands, index ranges, ids/names bijection, trace keys and coverage) by an independent verifier; opcode table cross-checked against the crate's",
     "gc": "collector forced at every / each single / every n-th / random subsets of a program's allocation points (allocator hook); heap-reachability audit at the dispatch hook after every instruction that collected (quarantine makes swept objects recognisable by address); released-memory checksum; self-differential against the run without collections; the same schedules under AddressSanitizer without quarantine",
     "total": "hostile inputs (arbitrary card trees through the JSON/YAML loaders, size-limit modules, hostile well-scoped programs under tiny stacks/heaps/budgets) under crash, panic, abort, native-stack-overflow and hang monitors in isolated workers",
@@ -185,5 +187,48 @@ CHECKS = {
         "targets": {"quick": {"op:.*": 1000000, "op:Closure": 1000, "op:RegisterUpvalue": 1000, "op:ForEach": 1000, "op:GotoIfFalse": 1000, "labels_checked": 100000},
                     "thorough": {"op:.*": 30000000}},
         "assumptions": ["structural validity as listed in the property statement"],
+    },
+    "C03": {
+        "level": "exploration",
+        "level_text": "Held on the sampled (program, budget) pairs only: a hook in the dispatch loop counts every instruction at every nesting level; for each program the instruction need is measured under a large budget, then the program is re-run with budgets 1,2,3,10,50, three random ones and need-1, need, need+1, need+2, 2*need+1. The monitor reports (and stops the run, leaving an EVIDENCE note that survives a watchdog kill) the moment the counter passes the budget; a budget below the need must end in Timeout (possibly wrapped by the native that re-entered), a budget above it must leave result, host-call log and globals unchanged. 40% of the programs do not terminate on their own: endless loops, unbounded (mutual, dynamic, closure) recursion, endless or long key functions run by sorted/min/max, endless loops two and three host re-entries deep. 'Terminates' is decided as bounded progress: the run returns after at most N dispatches; host functions are assumed to terminate.",
+        "level_note": "Trusted: the dispatch hook sits at the single decode point of Vm::_run. The interpreter executes N-1 instructions for budget N; the property only requires <= N.",
+        "technique": "runtime monitoring: per-dispatch instruction counter checked against the budget online, self-differential across budgets",
+        "rule": "seeded programs (40% non-terminating templates) x enumerated budgets; evaluations = programs; non-trivial when all budgets were judged",
+        "engines": [
+            {"engine": "budget", "profile": "dev", "cases": {"quick": 2500, "thorough": 60000}, "primary": True},
+            {"engine": "budget", "profile": "release", "cases": {"quick": 0, "thorough": 30000}, "primary": False},
+        ],
+        "hard_floor": {"evaluations": 100, "counters": {"runs_ending_in_Timeout": 200, "budgeted_runs": 1000}},
+        "targets": {"quick": {"runs_ending_in_Timeout": 20000, "runs_with_reentry_depth>=2": 2000, "budgets_around_need": 5000, "runs_with_sufficient_budget": 20000},
+                    "thorough": {"runs_ending_in_Timeout": 500000, "runs_with_reentry_depth>=2": 50000}},
+        "assumptions": ["host functions terminate on their own", "budget N >= 1 (0 is exercised by C04)"],
+    },
+    "C05": {
+        "level": "exploration",
+        "level_text": "Held on the sampled histories only: the allocator hook logs every allocation (index, size, alignment, address, granted or not, counter and limit after the call), every release and the begin/end of every collection; an offline checker replays the log into an address->charge ledger and requires, after every event, counter == sum of outstanding charges (allowing for the one request that is charged but not yet logged while a collection runs inside alloc), counter <= limit, no release of an unknown address, refund == charge, and an empty ledger and a zero counter after every clear. Workloads: churn programs with bounded live data and 10x-200x the limit in garbage (strings, tables, closures, rows, library results) that must complete; growth programs that must end in OutOfMemory; failing programs; random programs; limits 4 KiB..1 MiB; histories of 2..320 runs with clear. After a run that ended in OutOfMemory a full collection is forced and the run is a violation when a churn program's reachable bytes + failed request + 25% slack fit in the limit.",
+        "level_note": "Accounted = what goes through the allocator proxy (the quantifier of the property); the keys Vec of a table and the upvalues Vec of a closure live in the global allocator and are not accounted - observation only. Trusted: the ledger checker and the event log hook.",
+        "technique": "runtime monitoring: offline allocation-ledger checker over hook event logs, forced collection after OutOfMemory, churn/growth workloads with known answers",
+        "rule": "seeded run/clear histories over program pools; evaluations = histories; non-trivial when the whole history was checked",
+        "engines": [
+            {"engine": "lifecycle", "profile": "dev", "cases": {"quick": 400, "thorough": 12000}, "primary": True, "args": {"property": "c05"}},
+        ],
+        "hard_floor": {"evaluations": 100, "counters": {"ledger_events": 100000, "collections": 100}},
+        "targets": {"quick": {"ledger_events": 1000000, "oom_genuine": 200, "churn_runs_completed": 2000, "clears_checked": 20000},
+                    "thorough": {"ledger_events": 30000000}},
+        "assumptions": ["25% slack when judging a spurious OutOfMemory"],
+    },
+    "C17": {
+        "level": "exploration",
+        "level_text": "Held on the sampled histories only: pools of 1-4 programs (allocation-heavy, closure, random, and ones ending in Timeout, OutOfMemory, value-stack overflow, call-stack overflow, a host error, an error inside a nested host re-entry) are run in histories of 2..320 steps on one VM with stock collection thresholds and limits 4 KiB..1 MiB. Cleared mode: the VM is cleared before every run and the run is compared with the same program on a newly created VM: result kind, host-call log, globals by name, number of instructions dispatched and accounted memory after the run must agree. Repeat mode: one program is run n times (n up to 300, crossing 256) without clear and every run must equal the first.",
+        "level_note": "Trusted: the fresh-VM twin. Repeat mode is only judged for programs whose first run succeeds (stack-balanced).",
+        "technique": "runtime monitoring: run histories on one VM against a fresh-VM twin executed in lock-step",
+        "rule": "seeded run/clear histories over program pools; evaluations = histories; non-trivial when the whole history was compared",
+        "engines": [
+            {"engine": "lifecycle", "profile": "dev", "cases": {"quick": 400, "thorough": 12000}, "primary": True, "args": {"property": "c17"}},
+        ],
+        "hard_floor": {"evaluations": 100, "counters": {"runs": 2000}},
+        "targets": {"quick": {"runs": 100000, "histories_longer_than_256": 300, "failed_run_followed_by_comparison": 5000},
+                    "thorough": {"runs": 3000000}},
+        "assumptions": ["the same registered host functions on both VMs"],
     },
 }
